@@ -2633,10 +2633,36 @@ fn explore(ctx: &Ctx) {
     let mut total = Acc::new();
     let mut done_units = 0usize;
     const SLICE: usize = 256;
+    // REUSED INSTANCES: the same sweep (all 4096 GTF immediates x index set, image check,
+    // boundary GM set) on snapshots of long-lived, repeatedly re-initialised interpreters;
+    // interleaved with the fresh-instance slices so that a time cap cuts both alike
+    let n_script_units = script_units(thorough).len();
+    assert!(units[..n_script_units].iter().all(|u| matches!(u, UnitSpec::Script { .. })), "unit order");
+    let mut chain = match ScriptChain::new(thorough) {
+        Ok(c) => Some(c),
+        Err(e) => {
+            total.build_errors.push(format!("reused script chain: {e}"));
+            None
+        }
+    };
+    let mut reused_done = 0usize;
+    let reused_total = 2 * n_script_units + 2 * (units.len() - n_script_units);
+    let sweep_batch = |batch: Vec<Unit>, total: &mut Acc| {
+        space::par_chunks(
+            batch.len() as u64,
+            1,
+            Acc::new,
+            |i, acc: &mut Acc| sweep_unit(&batch[i as usize], false, acc),
+            |acc| merge_acc(ctx, total, acc),
+        );
+    };
     let mut lo = 0usize;
     while lo < units.len() {
         if lo > 0 && ctx.out_of_time() {
-            ctx.cap(format!("time budget used up after {lo} of {} units", units.len()));
+            ctx.cap(format!(
+                "time budget used up after {lo} of {} fresh-instance units and {reused_done} of {reused_total} reused-instance units",
+                units.len()
+            ));
             break
         }
         let hi = (lo + SLICE).min(units.len());
@@ -2647,47 +2673,17 @@ fn explore(ctx: &Ctx) {
             |i, acc: &mut Acc| eval_unit(&units[lo + i as usize], gm_full[lo + i as usize], acc),
             |acc| merge_acc(ctx, &mut total, acc),
         );
-        done_units = hi;
-        lo = hi;
-    }
-    // REUSED INSTANCES: the same sweep (all 4096 GTF immediates x index set, image check,
-    // boundary GM set) on snapshots of long-lived, repeatedly re-initialised interpreters
-    let mut reused_done = 0usize;
-    let mut reused_total = 0usize;
-    let mut sweep_slice = |batch: Vec<Unit>, total: &mut Acc| {
-        space::par_chunks(
-            batch.len() as u64,
-            1,
-            Acc::new,
-            |i, acc: &mut Acc| sweep_unit(&batch[i as usize], false, acc),
-            |acc| merge_acc(ctx, total, acc),
-        );
-    };
-    for kind in 0..4 {
-        match other_chain(kind) {
-            Ok(batch) => {
-                reused_total += batch.len();
-                reused_done += batch.len();
-                sweep_slice(batch, &mut total);
-            }
-            Err(e) => total.build_errors.push(format!("reused chain {}: {e}", OTHER_KINDS[kind])),
-        }
-    }
-    match ScriptChain::new(thorough) {
-        Ok(mut chain) => {
-            reused_total += chain.len();
-            'chain: loop {
-                if ctx.out_of_time() {
-                    ctx.cap(format!("time budget used up after {} of {} reused-instance script events", chain.pos, chain.len()));
-                    break
-                }
+        // the reused-instance events of the same script units (two per unit)
+        if let Some(c) = chain.as_mut() {
+            let upto = 2 * hi.min(n_script_units);
+            while c.pos < upto {
                 let mut batch = vec![];
-                while batch.len() < SLICE {
-                    match chain.next() {
+                while c.pos < upto && batch.len() < SLICE {
+                    match c.next() {
                         Some(Ok(u)) => batch.push(u),
                         Some(Err(e)) => {
-                            total.build_errors.push(format!("reused script chain event {}: {e}", chain.pos - 1));
-                            break 'chain
+                            total.build_errors.push(format!("reused script chain event {}: {e}", c.pos - 1));
+                            c.pos = usize::MAX / 2;
                         }
                         None => break,
                     }
@@ -2696,10 +2692,22 @@ fn explore(ctx: &Ctx) {
                     break
                 }
                 reused_done += batch.len();
-                sweep_slice(batch, &mut total);
+                sweep_batch(batch, &mut total);
             }
         }
-        Err(e) => total.build_errors.push(format!("reused script chain: {e}")),
+        done_units = hi;
+        lo = hi;
+    }
+    if done_units == units.len() {
+        for kind in 0..4 {
+            match other_chain(kind) {
+                Ok(batch) => {
+                    reused_done += batch.len();
+                    sweep_batch(batch, &mut total);
+                }
+                Err(e) => total.build_errors.push(format!("reused chain {}: {e}", OTHER_KINDS[kind])),
+            }
+        }
     }
     ctx.set("reused_instance_units_total", json!(reused_total));
     ctx.set("reused_instance_units_completed", json!(reused_done));
@@ -2768,6 +2776,7 @@ fn explore(ctx: &Ctx) {
         (UnitSpec::Script { spec: rich.clone(), ctx: SCtx::Script }, Op::Gm { imm: 8 }),
         (UnitSpec::Script { spec: rich, ctx: SCtx::Pred(0) }, Op::Gm { imm: 7 }),
     ];
+    reused_sample(ctx, thorough);
     for (us, op) in samples {
         let u = build_unit(&us).expect("sample unit");
         let v = run_op(&u, &op);
@@ -2782,6 +2791,23 @@ fn explore(ctx: &Ctx) {
             "agrees": v.bad.is_none(),
         }));
     }
+}
+
+/// One written-out reused-instance case: the simplest transaction (no contract input)
+/// right after a call program with contract inputs at indices 1 and 2.
+fn reused_sample(ctx: &Ctx, thorough: bool) {
+    let Ok(mut chain) = ScriptChain::new(thorough) else { return };
+    let Some(Ok(u)) = chain.next() else { return };
+    let op = Op::Gtf { imm: 0x221, b: 1 };
+    let v = run_op(&u, &op);
+    ctx.sample(json!({
+        "case": case_json(&u.spec, &u.reuse, &op),
+        "unit": u.describe(),
+        "context": u.ctx.name(),
+        "observed": {"step": v.step.label(), "dest": format!("{:#x}", v.dest)},
+        "expected": format!("{:?}", v.exp.as_ref().map(|e| (e.ok.clone(), reasons_text(e.panics)))),
+        "agrees": v.bad.is_none(),
+    }));
 }
 
 fn replay(case: &Value, ctx: &Ctx) {
